@@ -66,6 +66,7 @@ def run_one(sid, verify, inplace):
             res["demo_clean"] = r0.returncode if r0 is not None else None
         env = dict(os.environ)
         env["VERIF_REPO"] = repo
+        env["VERIF_SCRATCH_EVIDENCE"] = "1"
         t0 = time.time()
         checks = meta.get("checks", [prop])
         outs = {}
